@@ -19,7 +19,7 @@ func init() {
 			"C-backed arrays wrap real C memory (mmap with guard pages / malloc with canaries)",
 		},
 		Workloads: []core.Workload{
-			{Name: "histories", Variant: "plain", N: core.Tiered(8*2*150, 8*2*4000), Run: c01History},
+			{Name: "histories", Variant: "plain", N: core.Tiered(8*2*150, 8*2*20000), Run: c01History},
 		},
 		RequireTags: func(string) []string { return []string{"stepped-chain"} },
 	})
